@@ -1,6 +1,6 @@
 from flamapy.core.transformations import ModelToText
 
-from flamapy.core.models.ast import Node
+from flamapy.core.models.ast import Node, ASTOperation
 from flamapy.metamodels.fm_metamodel.models import (
     Feature,
     FeatureModel,
@@ -125,7 +125,8 @@ class AFMWriter(ModelToText):
 
         data = node.data
         if node.is_op():
-            data = data.value.upper()
+            # The AFM keyword of the equivalence operator is IFF
+            data = 'IFF' if data == ASTOperation.EQUIVALENCE else data.value.upper()
 
         if node.left and node.right:
             result = self.recursive_constraint_read(
